@@ -153,6 +153,19 @@ func runC06(c *Ctx) {
 					return
 				}
 			}
+			// a helper that only mutates (the per-record update moved out of the refresh loop): the obligation to publish
+			// lies with its callers, from each call on
+			if sites := mutatingHelperSites(c, fn); sites != nil {
+				for _, site := range sites {
+					k2 := c.short(topFunc(site.Parent()).String()) + " › " + what + " (in " + c.short(fn.String()) + ")"
+					if path := unpublishedExit(c, site); path != nil {
+						c.Bad("C06.P1-must-publish", k2, site.Pos(), "a path from this mutation reaches a function exit without publishing a snapshot: the change is marked as seen and never shown to readers", path...)
+					} else {
+						c.OK("C06.P1-must-publish", k2, site.Pos(), "every path from the call that makes this mutation to an exit passes read.Store")
+					}
+				}
+				return
+			}
 			if path := unpublishedExit(c, in); path != nil {
 				c.Bad("C06.P1-must-publish", key, in.Pos(), "a path from this mutation reaches a function exit without publishing a snapshot: the change is marked as seen and never shown to readers", path...)
 			} else {
@@ -678,4 +691,26 @@ func pcacheNewestWins(c *Ctx, rule string) {
 				"the record stored is the one whose advertisement time was compared", "the record stored is not the one whose time was compared")
 		})
 	}
+}
+
+// mutatingHelperSites: fn is an unexported function that never publishes and
+// whose call sites are all known: returns those call sites (nil otherwise).
+func mutatingHelperSites(c *Ctx, fn *ssa.Function) []ssa.CallInstruction {
+	if fn.Object() == nil || fn.Object().Exported() {
+		return nil
+	}
+	publishes := false
+	instrs(fn, func(in ssa.Instruction) {
+		if isPublish(c, in) {
+			publishes = true
+		}
+	})
+	if publishes {
+		return nil
+	}
+	sites, known := c.staticCallSites(fn)
+	if !known || len(sites) == 0 {
+		return nil
+	}
+	return sites
 }
